@@ -5,6 +5,7 @@ import NrDaemon.Driver.Limits
 import NrDaemon.Driver.Respawn
 import NrDaemon.Driver.Frame
 import NrDaemon.Driver.Lasp
+import NrDaemon.Driver.Proc
 /-!
   Op-line driver (core Lean only; built as a `lean_exe`).
 
@@ -15,6 +16,7 @@ import NrDaemon.Driver.Lasp
 structure DState where
   cont : ContState := {}
   mt : MtState := {}
+  proc : ProcEng := {}
 
 def dispatch (st : DState) (line : String) (impl : Option String) : DState × StepOut :=
   let t := tokenize line
@@ -28,6 +30,7 @@ def dispatch (st : DState) (line : String) (impl : Option String) : DState × St
   | some "respawn" => (st, respawnStep t impl)
   | some "frame" => (st, frameStep t impl)
   | some "lasp" => (st, laspStep t impl)
+  | some "proc" => let (c, o) := procStep st.proc t impl; ({ st with proc := c }, o)
   | some "reset" => ({}, { model := "ok" })
   | _ => (st, { model := "bad-op" })
 
